@@ -710,9 +710,9 @@ func ruleC11f(c *Ctx) {
 		for h := range headers {
 			// blocks of this loop: on a cycle through h
 			var body []*ssa.BasicBlock
-			fromH := reachableBlocks(h.Succs, nil)
+			fromH := reachableAfter(h, nil)
 			for _, b := range fn.Blocks {
-				if b != h && cyc[b] && fromH[b] && reachableBlocks(b.Succs, nil)[h] {
+				if b != h && cyc[b] && fromH[b] && reachableAfter(b, nil)[h] {
 					body = append(body, b)
 				}
 			}
@@ -804,7 +804,7 @@ func ruleC11g(c *Ctx) {
 		// loop header of the scan
 		var header *ssa.BasicBlock
 		for b := keep.Block(); b != nil; b = b.Idom() {
-			if cyc[b] && reachableBlocks(keep.Block().Succs, nil)[b] {
+			if cyc[b] && reachableAfter(keep.Block(), nil)[b] {
 				if _, ok := b.Instrs[len(b.Instrs)-1].(*ssa.If); ok {
 					for _, s := range b.Succs {
 						if !reachableBlocks([]*ssa.BasicBlock{s}, nil)[b] {
